@@ -18,8 +18,8 @@ ASSUMPTIONS = [
     "bounded instances only: targets of at most ~4 units per object; draw menus are finite",
     "scipy norm.rvs with scale 0 returns loc exactly (checked at run time: such objects make no generator request)",
 ]
-MAX_EXEC = {"quick": 6000, "thorough": 60000}
-MAX_SECONDS = {"quick": 150, "thorough": 900}
+MAX_EXEC = {"quick": 12000, "thorough": 60000}
+MAX_SECONDS = {"quick": 500, "thorough": 1500}
 
 
 def cases(tier, seed, extra=()):
